@@ -318,15 +318,104 @@ theorem np_runObjS {rec : SRec} (fuel : Nat) (op : SOp) {st : StructTy} (ptrT : 
     refine np_bind (np_forSVS _ (fun kv _ => hentry _ _ _)) (fun m => ?_)
     exact np_bind (np_forSVS _ (fun kv _ => np_asVal _)) (fun _ => np_bind (np_interdeps _ _) (fun _ => by simp))
 
+/-- a schema that denotes a struct-mapped object: the object itself, or scopes around it -/
+inductive ObjLikeS : STy → Prop
+  | obj {id st ptrT props} : ObjLikeS (.obj id st ptrT props)
+  | scope {t} : ObjLikeS t → ObjLikeS (.scope t)
+
+theorem objLikeS_sound : ∀ (n : Nat) (t : STy), objLikeS n t = true → ObjLikeS t
+  | 0, _, h => by simp [objLikeS] at h
+  | n + 1, t, h => by
+    cases t with
+    | obj => exact .obj
+    | scope t => exact .scope (objLikeS_sound n t (by simpa [objLikeS] using h))
+    | leaf => simp [objLikeS] at h
+    | list => simp [objLikeS] at h
+    | map => simp [objLikeS] at h
+    | oneOf => simp [objLikeS] at h
+
+theorem mem_of_findMember {members : List (Key × STy)} {s : SV} {km : Key × STy}
+    (h : findMember members s = some km) : km ∈ members ∧ svTy? s = some (reflTy km.2) := by
+  unfold findMember at h
+  split at h
+  · cases h
+  · rename_i g hg
+    have hm := List.mem_of_getLast? h
+    obtain ⟨h1, h2⟩ := List.mem_filter.mp hm
+    exact ⟨h1, by rw [hg]; simp only [beq_iff_eq] at h2; rw [h2]⟩
+
 /-- Well-formedness of a schema tree with struct-mapped objects: the map-backed leaves are
-    well-formed closed schemas (`WF`) and every struct-mapped object is a well-formed pair
-    (`WFObj`). (Since 79a33d2 a default that is not a map is no panic source any more.) -/
+    well-formed closed schemas (`WF`), every struct-mapped object is a well-formed pair
+    (`WFObj`), the members of a one-of are struct-mapped objects. (Since 79a33d2 a default that is
+    not a map is no panic source any more.) -/
 inductive WFS : STy → Prop
   | leaf {t} : WF [] t → WFS (.leaf t)
   | list {item a b} : WFS item → WFS (.list item a b)
   | map {k v a b} : WF [] k → WFS v → WFS (.map k v a b)
   | scope {t} : WFS t → WFS (.scope t)
   | obj {id st ptrT props} : WFObj st props → (∀ kp, kp ∈ props → WFS kp.2.ty) → WFS (.obj id st ptrT props)
+  | oneOf {ik d inl members} : (∀ m, m ∈ members → WFS m.2) → (∀ m, m ∈ members → ObjLikeS m.2) →
+      WFS (.oneOf ik d inl members)
+
+/-- Serialize of an object-like schema yields a `map[string]any` -/
+theorem srun_S_objLike (x : Ext) : ∀ (fuel : Nat) (t : STy) (s r : SV), ObjLikeS t →
+    srun x fuel .S t s = .ok r → ∃ rm, r = .val (toStrAny rm)
+  | 0, _, _, _, _, h => by simp [srun] at h
+  | n + 1, t, s, r, ho, h => by
+    cases ho with
+    | obj =>
+      simp only [srun, runObjS] at h
+      obtain ⟨_, _, h⟩ := Out.bind_eq_ok h
+      obtain ⟨_, _, h⟩ := Out.bind_eq_ok h
+      obtain ⟨_, _, h⟩ := Out.bind_eq_ok h
+      obtain ⟨m', _, h⟩ := Out.bind_eq_ok h
+      obtain ⟨_, _, h⟩ := Out.bind_eq_ok h
+      cases h
+      exact ⟨m', rfl⟩
+    | scope ho' =>
+      simp only [srun] at h
+      exact srun_S_objLike x n _ s r ho' h
+
+theorem np_runOneOfS {rec : SRec} (x : Ext) (op : SOp) (ik : Bool) (d : String) (inl : Bool)
+    {members : List (Key × STy)} (hrec : ∀ m, m ∈ members → SRecNP rec m.2)
+    (hobj : ∀ m, m ∈ members → ∀ s r, rec .S m.2 s = .ok r → ∃ rm, r = .val (toStrAny rm)) (s : SV) :
+    NP (runOneOfS rec x op ik d inl members s) := by
+  cases op
+  · simp only [runOneOfS, oneOfUnserS]
+    split
+    · simp
+    · simp
+    · split
+      · simp
+      · split
+        · simp
+        · split
+          · simp
+          · refine np_bind ?_ (fun key => ?_)
+            · split
+              · exact np_bind (np_rewrapC (np_intInputMapper _ _)) (fun _ => by simp)
+              · exact np_bind (np_rewrapC (np_stringInputMapper _ _)) (fun _ => by simp)
+            · split
+              · simp
+              · split
+                · simp
+                · rename_i mt hmt
+                  refine np_bind (hrec (key, mt) (lookupK_mem hmt) _ _) (fun r => ?_)
+                  (repeat' split) <;> simp
+  · simp only [runOneOfS]
+    split
+    · simp
+    · rename_i k mt hf
+      exact np_bind (np_addSeg _ (hrec (k, mt) (mem_of_findMember hf).1 _ _)) (fun _ => by simp)
+  · simp only [runOneOfS]
+    split
+    · simp
+    · rename_i k mt hf
+      have hm := (mem_of_findMember hf).1
+      refine np_bind' (hrec (k, mt) hm _ _) (fun r hr => ?_)
+      obtain ⟨rm, rfl⟩ := hobj (k, mt) hm _ _ hr
+      simp only [toStrAny, MapShape.strAny, strKeys_toStrAny]
+      simp
 
 theorem np_subDefProps {α} {rec : String → α → Option V → Out (Option V)} : ∀ (ps : List (String × α)) (d : List (String × V)),
     (∀ kp, kp ∈ ps → ∀ e, NP (rec kp.1 kp.2 e)) → NP (subDefProps rec ps d)
@@ -374,6 +463,7 @@ theorem np_subDefS : ∀ (n : Nat) (t : STy) (e : Option V), WFS t → NP (subDe
     | list => simp [subDefS]
     | map => simp [subDefS]
     | scope => simp [subDefS]
+    | oneOf => simp [subDefS]
     | obj hw hp =>
       simp only [subDefS]
       split
@@ -399,6 +489,10 @@ theorem srun_np (x : Ext) : ∀ (fuel : Nat) (op : SOp) (t : STy) (s : SV), WFS 
     | obj hw hp =>
       simp only [srun]
       exact np_runObjS n op _ hw (fun kp hkp => ih (hp kp hkp)) (fun kp hkp e => np_subDefS n _ e (hp kp hkp)) s
+    | oneOf hm ho =>
+      simp only [srun]
+      exact np_runOneOfS x op _ _ _ (fun m hmm => ih (hm m hmm))
+        (fun m hmm s r hr => srun_S_objLike x n _ s r (ho m hmm) hr) s
 
 /-! ### fuel monotonicity of the sub-object defaults, and the executable check -/
 
@@ -507,6 +601,7 @@ theorem subDefS_mono : ∀ (n : Nat) (t : STy) (e : Option V) (o : Out (Option V
     | list => simpa [subDefS] using ho
     | map => simpa [subDefS] using ho
     | scope => simpa [subDefS] using ho
+    | oneOf => simpa [subDefS] using ho
 
 theorem subDefS_mono_k (n : Nat) (t : STy) (e : Option V) (o : Out (Option V))
     (ho : subDefS n t e = o) (hne : o ≠ .fuel) : ∀ k, subDefS (n + k) t e = o
@@ -526,6 +621,9 @@ theorem wfSB_sound : ∀ (n : Nat) (t : STy), wfSB n t = true → WFS t
     | obj id st ptrT props =>
       simp only [wfSB, Bool.and_eq_true, List.all_eq_true] at h
       exact .obj ((wfObjB_iff st props).mp h.1) (fun kp hkp => wfSB_sound n kp.2.ty (h.2 kp hkp))
+    | oneOf ik d inl members =>
+      simp only [wfSB, Bool.and_eq_true, List.all_eq_true] at h
+      exact .oneOf (fun m hm => wfSB_sound n m.2 (h.1.1 m hm).1.1) (fun m hm => objLikeS_sound n m.2 (h.1.1 m hm).1.2)
 
 /-! ### construction -/
 
@@ -563,6 +661,9 @@ theorem construct_np : ∀ (fuel : Nat) (t : STy), WFS t → NP (construct fuel 
     | obj hw hp =>
       simp only [construct]
       exact np_bind (np_allOk _ (fun kp hkp => construct_np n _ (hp kp hkp))) (fun _ => np_constructObj hw)
+    | oneOf hm _ =>
+      simp only [construct]
+      exact np_allOk _ (fun m hmm => construct_np n _ (hm m hmm))
 
 end SM
 end Arca
